@@ -17,6 +17,10 @@ func main() {
 		run.Fatal("%v", err)
 	}
 	run.Budget(4*time.Minute, 25*time.Minute)
+	if run.Replay != "" {
+		dkgcheck.ReplayFile(run, "C07")
+		return
+	}
 	dkgcheck.Run(run, "C07", dkgcheck.Jobs(run))
 	dkgcheck.Describe(run, "C07")
 	run.Finish()
